@@ -2,6 +2,7 @@ import PV.Model.FloatArith
 import PV.Generated.Score
 import PV.Model.SCC
 import PV.Model.Grouping
+import PV.Model.TED
 /-!
 Line-protocol driver: runs the executable models on the cases the harness also ran on the
 implementation.  Core-only imports (links as a native executable).
@@ -90,6 +91,35 @@ def runGroup (t : Array String) : String :=
   | "star" => s!"-|{b common}|{b (PV.Grouping.checkStar θ ps impl)}"
   | _ => "bad-op"
 
+/-- parse a preorder (label arity)* token stream into a tree; returns the tree and the next position -/
+partial def parseTree (t : Array String) (pos : Nat) : PV.TED.Tree × Nat :=
+  let lab := (tokI t[pos]!).toNat
+  let ar := (tokI t[pos+1]!).toNat
+  let rec kids (k : Nat) (p : Nat) (acc : List PV.TED.Tree) : List PV.TED.Tree × Nat :=
+    match k with
+    | 0 => (acc.reverse, p)
+    | k' + 1 => let (c, p') := parseTree t p; kids k' p' (c :: acc)
+  let (cs, p) := kids ar (pos + 2) []
+  (.node lab cs, p)
+
+/-- `ted L del*L ins*L ren*(L*L) n1 (lab ar)*n1 n2 (lab ar)*n2` → `dist simNum simDen` (costs in 1/1000) -/
+def runTed (t : Array String) : String :=
+  if t.size < 1 then "bad-op" else
+  let L := (tokI t[0]!).toNat
+  let del := (List.range L).map fun i => (tokI t[1 + i]!).toNat
+  let ins := (List.range L).map fun i => (tokI t[1 + L + i]!).toNat
+  let ren := (List.range (L * L)).map fun i => (tokI t[1 + 2 * L + i]!).toNat
+  let c : PV.TED.Cost := { del := fun a => del.getD a 0, ins := fun a => ins.getD a 0, ren := fun a b => ren.getD (a * L + b) 0 }
+  let p0 := 1 + 2 * L + L * L
+  let n1 := (tokI t[p0]!).toNat
+  let (t1, _) := parseTree t (p0 + 1)
+  let p1 := p0 + 1 + 2 * n1
+  let n2 := (tokI t[p1]!).toNat
+  let (t2, _) := parseTree t (p1 + 1)
+  let d := PV.TED.dist c t1 t2
+  let (sn, sd) := PV.TED.similarity 1000 d n1 n2
+  s!"{d} {sn} {sd} {t1.size} {t2.size}"
+
 def step (line : String) : String :=
   let parts := (line.splitOn " ").filter (· ≠ "")
   match parts with
@@ -100,6 +130,7 @@ def step (line : String) : String :=
     | "score" => runScore t
     | "scc" => runScc t
     | "group" => runGroup t
+    | "ted" => runTed t
     | _ => "bad-op"
 
 partial def loop (h : IO.FS.Stream) (out : IO.FS.Stream) : IO Unit := do
